@@ -241,7 +241,15 @@ func (bc *BuildCache) deserialize(c Cacheable, srcModTime time.Time, r io.Reader
 	if srcModTime.After(buildTime) {
 		return buildTime, true, nil // Package is out-of-date, cache miss.
 	}
-	return buildTime, false, c.Read(gd.Decode)
+	if err := c.Read(gd.Decode); err != nil {
+		return buildTime, false, err
+	}
+	// The gzip reader verifies the checksum when it reaches the end of the
+	// stream, which the decoder above doesn't need to do on its own.
+	if _, err := io.Copy(io.Discard, zr); err != nil {
+		return buildTime, false, err
+	}
+	return buildTime, false, nil
 }
 
 // commonKey returns a part of the cache key common for all artifacts generated
